@@ -221,27 +221,57 @@ Definition lmtp_data (w : world) (folder : str) (rs : list str) (p : parsed) (cl
     at RCPT time: they decide which recipients are in [rs] at all. *)
 Record cfg := mkCfg { c_folder : str; c_max_size : Z; c_quota_enabled : bool }.
 
-(** the quota pass of handleDATA as the code has it NOW: for every recipient
-    CheckQuota is computed and a failure is only LOGGED ("Continue with other
-    recipients"); the list handed to DeliverToMultipleRecipients is s.recipients
-    itself.  [over_quota r] stands for "CheckQuota(local part of r, size, limit)
-    returned an error" (a function of the shared and per-user databases). *)
-Definition quota_log (c : cfg) (over_quota : str -> bool) (rs : list str) : list str :=
-  if c_quota_enabled c then filter over_quota rs else [].
+
+(** the quota pass of handleDATA (raven 57171c2): for every recipient, when
+    quota is enabled, CheckRecipientQuota is evaluated on the mailboxes as they
+    are when the message arrives, BEFORE any delivery of the transaction; a
+    recipient whose check fails with ErrQuotaExceeded is left out of the list
+    handed to DeliverToMultipleRecipients and is answered "552 5.2.2 mailbox
+    full" in its own position.  [over_quota r] stands for "CheckRecipientQuota(r,
+    size, limit) returned ErrQuotaExceeded" — a function of the recipient string
+    (usage of the store DeliverMessage would file into + size > limit; measured
+    by checks/c01.py from the databases; C17's Model/Policy.v defines it). *)
+Definition skipped (c : cfg) (over_quota : str -> bool) (r : str) : bool :=
+  c_quota_enabled c && over_quota r.
 Definition deliver_to (c : cfg) (over_quota : str -> bool) (rs : list str) : list str :=
-  let _logged := quota_log c over_quota rs in rs.
+  filter (fun r => negb (skipped c over_quota r)) rs.
+
+(** DeliverToMultipleRecipients on [deliver_to], told per position of [rs]: a
+    skipped position is an attempt that does nothing (ghost entry, so that the
+    attempts stay aligned with the reply positions); [i] counts the real
+    deliveries (clock index) *)
+Fixpoint deliver_all_q (skip : str -> bool) (w : world) (folder : str) (rs : list str) (p : parsed)
+         (clk : nat -> Z) (i : nat) : world * list attempt :=
+  match rs with
+  | [] => (w, [])
+  | r :: rest =>
+    if skip r then
+      let '(w2, atts) := deliver_all_q skip w folder rest p clk i in
+      (w2, mkAtt w w r false :: atts)
+    else
+      let '(w1, ok) := deliver_message w folder r p (clk i) in
+      let '(w2, atts) := deliver_all_q skip w1 folder rest p clk (S i) in
+      (w2, mkAtt w w1 r ok :: atts)
+  end.
+
+(** the result map holds the delivered recipients only *)
+Definition results_q (skip : str -> bool) (atts : list attempt) : rmap :=
+  results_of (filter (fun a => negb (skip (a_rcpt a))) atts).
 
 (** handleDATA from the end of data on: ReadDataCommand over the size limit ->
     rejectMessage(552) (one reply per recipient, nothing attempted, raven
-    d9a1abb + aeac4b2); else ParseMessage/ValidateMessage/deliveries as
-    [lmtp_data], on the list [deliver_to] for the map and on [rs] for the replies *)
+    d9a1abb + aeac4b2); ParseMessage/ValidateMessage failure -> 554 per recipient;
+    else the quota pass, the deliveries, and the reply loop over [rs]: 552 for a
+    skipped recipient, else the result map *)
 Definition handle_data (c : cfg) (over_quota : str -> bool) (w : world) (rs : list str)
            (p : parsed) (size : Z) (clk : nat -> Z) : world * list reply * list attempt :=
   if c_max_size c <? size then (w, map (fun _ => R552) rs, map (fun r => mkAtt w w r false) rs)
   else if negb (p_ok p) then (w, map (fun _ => R554) rs, map (fun r => mkAtt w w r false) rs)
   else
-    let '(w', atts) := deliver_all w (c_folder c) (deliver_to c over_quota rs) p clk 0 in
-    (w', map (reply_for (results_of atts)) rs, atts).
+    let skip := skipped c over_quota in
+    let '(w', atts) := deliver_all_q skip w (c_folder c) rs p clk 0 in
+    let m := results_q skip atts in
+    (w', map (fun r => if skip r then R552 else reply_for m r) rs, atts).
 
 (** ---- IMAP operations on a world (prior histories) ----------------------------------- *)
 
